@@ -536,7 +536,7 @@ start:
 		}
 
 		// The third clause matches EOF.
-		if c == '#' || c == '\n' || c == 0 {
+		if c == '#' || c == '\n' || c == 0 && sc.eof() {
 			blank = true
 		}
 
@@ -589,7 +589,7 @@ start:
 			sc.startToken(val)
 		}
 		// Consume up to newline (included).
-		for c != 0 && c != '\n' {
+		for !(c == 0 && sc.eof()) && c != '\n' {
 			sc.readRune()
 			c = sc.peekRune()
 		}
@@ -633,8 +633,8 @@ start:
 		return NEWLINE
 	}
 
-	// end of file
-	if c == 0 {
+	// end of file (a NUL byte in the input is not the end of the file)
+	if c == 0 && sc.eof() {
 		// Emit OUTDENTs for unfinished indentation,
 		// preceded by a NEWLINE if we haven't just emitted one.
 		if len(sc.indentstk) > 1 {
